@@ -491,9 +491,12 @@ func check(id, tier string) int {
 		if tier == "thorough" {
 			n = 2000
 		}
-		v, st := crossProcessDeterminism(cfg, b, tier, seed, n)
+		v, st, crashed := crossProcessDeterminismOut(cfg, b, tier, seed, n)
 		extra := shardOut{res: &shardResult{Prop: cfg.ID, Stats: st, Exhaustive: true}}
-		if v != nil {
+		if crashed != nil {
+			// a crash (race report) in one of the fresh processes: attributed like any shard crash
+			outs = append(outs, *crashed)
+		} else if v != nil {
 			extra.res.Violations = []replayFile{{Property: cfg.ID, Tier: tier, Seed: seed, Stream: cfg.ID, Random: true, Violation: *v, Engine: "libsim"}}
 		}
 		outs = append(outs, extra)
@@ -573,7 +576,9 @@ func aggregate(cfg *propCfg, tier string, seed uint64, b *build, outs []shardOut
 	byKey := map[string]replayFile{}
 	for _, v := range viols {
 		k := v.Violation.Kind + "@" + v.Violation.Site
-		if old, ok := byKey[k]; !ok || len(v.Tape) < len(old.Tape) {
+		// an explicit tape beats a (seed, stream, index) reference; among explicit tapes the shortest
+		old, ok := byKey[k]
+		if !ok || (old.Random && !v.Random) || (old.Random == v.Random && !v.Random && len(v.Tape) < len(old.Tape)) {
 			byKey[k] = v
 		}
 	}
